@@ -36,7 +36,7 @@ RULE += (" Round 7: (a) statement trees over the extended C03 syntax (tuple targ
          "whose context did it (for the whole inheritance chain when the set uses extends), every loader request must be "
          "reported by some template of the set or None must be.")
 
-SET_CONFIGS = ["sync", "async", "sandbox", "unoptimized", "autoescape", "overlay", "bccache", "async_sandbox"]
+SET_CONFIGS = ["sync", "async", "sandbox", "unoptimized", "autoescape", "overlay", "bccache", "async_sandbox", "autoescape_select"]
 SET_EXTS = ["jinja2.ext.i18n", "jinja2.ext.do", "jinja2.ext.loopcontrols", "jinja2.ext.debug"]
 SNIPPETS = [
     "{% trans %}T {{ a }} and {{ b }}{% endtrans %}",
@@ -79,6 +79,34 @@ CONTAINERS = [
 ]
 
 
+SPECIAL_NAMES = ["p/Q&A.html", "p/Q&amp;A.html", "o'x.txt", "o&#39;x.txt", "a<b", "a&lt;b", "plain.html"]
+
+
+def const_name_snippet(rng):
+    """a reference whose template name is a CONSTANT EXPRESSION (concatenation, |safe-marked operands, filters,
+    conditional expression over constants): evaluated under the eval context in force where it stands"""
+    parts = rng.choice([("p/", "Q&A.html"), ("o'", "x.txt"), ("a<", "b"), ("pla", "in.html"), ("inc", "1.html")])
+    ops = []
+    for x in parts:
+        lit = '"' + x + '"'
+        ops.append(lit + rng.choice(["", "", "|safe", "|string", "|lower"]))
+    name = "(" + " ~ ".join(ops) + ")"
+    k = rng.random()
+    if k < 0.2:
+        name = "(" + name + " if true else 'nope.html')"
+    elif k < 0.3:
+        name = "[" + name + ", 'nope.html']"
+    kind = rng.random()
+    if kind < 0.6:
+        ref = "{% include " + name + " ignore missing %}"
+    elif kind < 0.8:
+        ref = "{% import " + name + " as cq %}"
+    else:
+        ref = "{% from " + name + " import zz %}"
+    ae = rng.choice(["", "", "true", "false"])
+    return "{% autoescape " + ae + " %}" + ref + "{% endautoescape %}" if ae else ref
+
+
 def wrap(rng, src):
     """the whole template body inside 1-2 randomly chosen statement containers"""
     for _ in range(rng.randint(1, 2)):
@@ -108,6 +136,8 @@ def set_env(jinja2, cfg, templates, lookups, requests):
         kw["optimized"] = False
     if cfg == "autoescape":
         kw["autoescape"] = True
+    if cfg == "autoescape_select":
+        kw["autoescape"] = jinja2.select_autoescape(["html"], default_for_string=False)
     if cfg == "bccache":
         from jinja2.bccache import BytecodeCache
 
@@ -161,6 +191,12 @@ def part_sets(ctx, jinja2):
             if "{% extends" in ts[tgt] or (tgt == "inc1.html" and "inc1.html" in sn):
                 continue
             ts[tgt] = ts[tgt] + sn if rng.random() < 0.5 else sn + ts[tgt]
+        # template names that are constant expressions (and loader entries whose names need escaping)
+        if rng.random() < 0.3:
+            for n in SPECIAL_NAMES:
+                ts.setdefault(n, "{% macro zz() %}z{% endmacro %}S")
+            tgt = rng.choice([k for k in ts if "{% extends" not in ts[k] and k not in SPECIAL_NAMES])
+            ts[tgt] = ts[tgt] + const_name_snippet(rng)
         # every statement under every kind of container
         for name in list(ts):
             if rng.random() < 0.3 and "{% block" not in ts[name] and "{% extends" not in ts[name]:
